@@ -150,6 +150,7 @@ func plans() []sp.Plan {
 
 func main() {
 	ctx = engine.Start("C01", "model_checking")
+	sp.Thorough = ctx.Thorough()
 	if ctx.ReplayPath != "" {
 		if cp.Replay(ctx, ctx.LoadReplay(), "smf-write", cc.SMFWrite()) {
 			ctx.Finish("replay")
